@@ -49,3 +49,11 @@ Example C05_witness :
   map (fun tp => map (fun ch => (map (fun m => (m_id m, m_att m)) (c_queue ch), c_paused ch, c_fin ch)) (t_chans tp)) (s_topics (restart s))
   = [[([(12,0);(13,0);(10,1)], true, [11])]].
 Proof. vm_compute. reflexivity. Qed.
+
+(* The model is tied to the CURRENT source: the order-of-effects facts about nsqd's core
+   functions that the model assumes (proofs/CoreSrcDefs.v) hold of the statement skeletons
+   regenerated from /repo on this run (gen/CoreShape.v). *)
+From NSQV Require proofs.CoreSrcDefs proofs.CoreSrcC05.
+Theorem C05_source_shape : CoreSrcDefs.src_facts_C05.
+Proof. exact CoreSrcC05.src_C05. Qed.
+Print Assumptions C05_source_shape.
